@@ -5,8 +5,8 @@ import (
 )
 
 // ---- crypto/hmac + sha256: an ideal MAC. mac(key, msg) is an uninterpreted function of the
-// two strings (functional consistency is all that is assumed here; unforgeability enters
-// where a harness states that an adversary cannot produce mac values for unknown keys). ----
+// two strings, INJECTIVE (collision-free); unforgeability enters where a harness states that an
+// adversary cannot produce mac values for unknown keys. ----
 
 type MacState struct {
 	Key  string
@@ -14,7 +14,17 @@ type MacState struct {
 }
 
 func (m *MacState) Write(p []byte) (int, error) { m.Data += string(p); return len(p), nil }
-func (m *MacState) Sum(b []byte) []byte         { return []byte(UFString("hmac_sha256", m.Key, m.Data)) }
+func (m *MacState) Sum(b []byte) []byte {
+	out := UFStringInj("hmac_sha256", m.Key, m.Data)
+	// every MAC output is, by definition, in the image of the MAC under this key; harnesses state
+	// unforgeability as "a forged value is not in the image" (MacImage)
+	Assume(UFBool("hmac_image", m.Key, out))
+	return []byte(out)
+}
+
+// MacImage: is v an HMAC-SHA256 output under key? (uninterpreted; true for every value the
+// model computes)
+func MacImage(key, v string) bool { return UFBool("hmac_image", key, v) }
 func (m *MacState) Reset()                      { m.Data = "" }
 func (m *MacState) Size() int                   { return 32 }
 func (m *MacState) BlockSize() int              { return 64 }
@@ -28,4 +38,8 @@ func VerifModel_hmac_Equal(a, b []byte) bool { return string(a) == string(b) }
 func VerifModel_sha256_New() hash.Hash { return nil }
 
 // aead.GenerateKey: 32 random bytes -> an arbitrary byte string.
-func VerifModel_aead_GenerateKey() []byte { return []byte(NondetString("aead.key")) }
+func VerifModel_aead_GenerateKey() []byte {
+	k := NondetString("aead.key")
+	Assume(k != "")
+	return []byte(k)
+}
